@@ -1,11 +1,120 @@
-/- Driver mode `lex` (stub; filled in with the lexer model). -/
+/-
+Driver mode `lex`: evaluates the lexer model (`Oq3.Lexer`, `Oq3.Lexed`) on one case line and
+prints the canonical I1/I2 line (DESIGN.md §2.1).  Not part of the proof base.
+-/
+import Oq3.Model.Lexer
+import Oq3.Model.Lexed
+
 namespace Oq3.Driver
+open Oq3.Lexer Oq3.Lexed Oq3.Gen
 
 /-- Unicode class table sent by the harness: code point ↦ (xid_start, xid_continue, emoji) -/
 abbrev UClassTable := List (Nat × Bool × Bool × Bool)
 
-def parseUClassLine (line : String) : Option (Nat × Bool × Bool × Bool) := none
+def hexDigit? (c : Char) : Option Nat :=
+  if '0' ≤ c && c ≤ '9' then some (c.toNat - '0'.toNat)
+  else if 'a' ≤ c && c ≤ 'f' then some (c.toNat - 'a'.toNat + 10)
+  else if 'A' ≤ c && c ≤ 'F' then some (c.toNat - 'A'.toNat + 10)
+  else none
 
-def lexLine (tab : UClassTable) (line : String) : String := "not-implemented"
+def parseHex (s : String) : Option Nat :=
+  if s.isEmpty then none
+  else s.toList.foldlM (fun acc c => (hexDigit? c).map (fun d => acc * 16 + d)) 0
+
+def parseBit? (c : Char) : Option Bool :=
+  if c == '1' then some true else if c == '0' then some false else none
+
+/-- a line `<hex codepoint> <s><c><e>`, e.g. `b5 110` -/
+def parseUClassLine (line : String) : Option (Nat × Bool × Bool × Bool) :=
+  match (line.trimAscii.toString.splitOn " ").filter (· ≠ "") with
+  | [cp, bits] =>
+    match parseHex cp, bits.toList with
+    | some n, [a, b, c] =>
+      match parseBit? a, parseBit? b, parseBit? c with
+      | some a, some b, some c => some (n, a, b, c)
+      | _, _, _ => none
+    | _, _ => none
+  | _ => none
+
+def ucOfTable (tab : UClassTable) : UC :=
+  let look (c : Char) : Bool × Bool × Bool :=
+    match tab.find? (·.1 == c.toNat) with
+    | some e => e.2
+    | none => (false, false, false)
+  { xidStart := fun c => (look c).1
+    xidContinue := fun c => (look c).2.1
+    isEmoji := fun c => (look c).2.2 }
+
+def b01 (b : Bool) : String := if b then "1" else "0"
+
+def showBase : Base → String
+  | .binary => "2" | .octal => "8" | .decimal => "10" | .hexadecimal => "16"
+
+def showLit : LiteralKind → String
+  | .int b e => s!"Lit.Int.{showBase b}.{b01 e}"
+  | .float b e => s!"Lit.Float.{showBase b}.{b01 e}"
+  | .byte t => s!"Lit.Byte.{b01 t}"
+  | .str t => s!"Lit.Str.{b01 t}"
+  | .bitStr t c => s!"Lit.BitStr.{b01 t}.{b01 c}"
+
+/-- `<Kind>:<len>` (literals: `<Kind>:<len>:<suffix_start>`) -/
+def showRaw (k : TokenKind) (len : Nat) : String :=
+  let plain (n : String) := s!"{n}:{len}"
+  match k with
+  | .lineComment => plain "LineComment"
+  | .blockComment t => plain s!"BlockComment.{b01 t}"
+  | .whitespace => plain "Whitespace"
+  | .ident => plain "Ident"
+  | .hardwareIdent => plain "HardwareIdent"
+  | .invalidIdent => plain "InvalidIdent"
+  | .openQasmVersionStmt a b => plain s!"OpenQasmVersionStmt.{b01 a}.{b01 b}"
+  | .pragma => plain "Pragma"
+  | .dim => plain "Dim"
+  | .annotation => plain "Annotation"
+  | .literal kind suf => s!"{showLit kind}:{len}:{suf}"
+  | .semi => plain "Semi" | .comma => plain "Comma" | .dot => plain "Dot"
+  | .openParen => plain "OpenParen" | .closeParen => plain "CloseParen"
+  | .openBrace => plain "OpenBrace" | .closeBrace => plain "CloseBrace"
+  | .openBracket => plain "OpenBracket" | .closeBracket => plain "CloseBracket"
+  | .at => plain "At" | .pound => plain "Pound" | .tilde => plain "Tilde"
+  | .question => plain "Question" | .colon => plain "Colon" | .dollar => plain "Dollar"
+  | .eq => plain "Eq" | .bang => plain "Bang" | .lt => plain "Lt" | .gt => plain "Gt"
+  | .minus => plain "Minus" | .and => plain "And" | .or => plain "Or" | .plus => plain "Plus"
+  | .star => plain "Star" | .slash => plain "Slash" | .caret => plain "Caret"
+  | .percent => plain "Percent" | .unknown => plain "Unknown" | .eof => plain "Eof"
+
+def parseText (line : String) : Option (List Char) :=
+  let l := line.trimAscii.toString
+  if l.isEmpty then some []
+  else (l.splitOn ".").mapM fun h =>
+    match parseHex h with
+    | some n => if n.isValidChar then some (Char.ofNat n) else none
+    | none => none
+
+def commaSep (xs : List String) : String := ",".intercalate xs
+
+/-- one `lex` case: dot-separated hex code points (empty line = empty text) -/
+def lexLine (tab : UClassTable) (line : String) : String :=
+  match parseText line with
+  | none => "bad-case"
+  | some text =>
+    if text.any (fun c => (tab.find? (·.1 == c.toNat)).isNone) then "missing-uclass"
+    else
+      let uc := ucOfTable tab
+      let toks := tokenize uc text
+      let raw := commaSep (toks.map fun t => showRaw t.kind t.len)
+      let ok := b01 (toks.all (·.ok))
+      match LexedStr.new uc text with
+      | none => s!"raw={raw};PANIC LexedStr::new;ok={ok}"
+      | some l =>
+        let kinds := commaSep (l.kind.map (·.name))
+        let starts := commaSep (l.start.map toString)
+        let errors := commaSep (l.errors.map fun e => toString e.1)
+        match l.toInput with
+        | none => s!"raw={raw};kinds={kinds};starts={starts};errors={errors};PANIC to_input;ok={ok}"
+        | some inp =>
+          let input := commaSep ((inp.kind.zip inp.joint).map fun (k, j) =>
+            k.name ++ (if j then "+" else ""))
+          s!"raw={raw};kinds={kinds};starts={starts};errors={errors};input={input};ok={ok}"
 
 end Oq3.Driver
